@@ -459,7 +459,7 @@ impl Space for ScaleCli {
         2
     }
     fn case_timeout_ms(&self) -> u64 {
-        600_000
+        4_000_000
     }
     fn describe(&self, i: u64) -> String {
         let b = if i % 2 == 0 { Build::Dev } else { Build::Release };
@@ -475,7 +475,10 @@ impl Space for ScaleCli {
             let (front, all) = drive::run_front(ctx, &text);
             ctx.trim();
             let has_error = !matches!(front, drive::Front::Accepted);
-            let r = cli::run(build, Input::File(&text), None, Duration::from_secs(120));
+            // rendering locates every diagnostic by scanning the source from its start: 16 384
+            // diagnostics over 100 KB take ~90 s in the dev build on an idle machine. Slow is
+            // not a verdict; only a run that exceeds ten times that counts as not terminating.
+            let r = cli::run(build, Input::File(&text), None, Duration::from_secs(if build == Build::Dev { 900 } else { 300 }));
             runs += 1;
             let input = format!("naija({}) file: shout(\"M\")\\n + {unit:?} x 2^{k}", build.name());
             if r.timed_out {
